@@ -4,7 +4,9 @@ use asca::{ASCAError, Error, RuleGroup};
 use serde_json::{json, Value};
 
 /// (fault line, needs these words to fire (runtime) or None (syntax))
-const RULE_FAULTS: [&str; 73] = [
+const RULE_FAULTS: [&str; 79] = [
+    // a bare `%` / structure whose span must not be empty when no blank follows it (runtime errors on the words of the base projects)
+    "a > %", "a>%", "%>a", "% > a", "a>⟨⟩", "⟨⟩>a",
     // syntax
     "a >", "> a", "a > e / _ _", "a > e / ##_", "a > e / _#s", "[+foo] > a", "a > [+", "a > e / (C,2:1)_", "a > e ;x", "a => ", "a > e / p", "{a > e", "a > e / _)", "a > [tone:12345]", "a > e / :{ _a",
     "* > *", "* > &", "a > * e", "a > & e", "a = e", "C=x > 1", "a:[+long > e", "a > e | ", "a, b > c, d, e", "a > e / _, b_, c_", "a > (e)", "a > ...", "a > e / _,", "a > [+voice", "a > e / _ / _", "a > %:[+voice]", "a > e / [tone:5]:", "& > a",
